@@ -284,6 +284,7 @@ def run(ctx, name, kind, **kw):
                      ("encode_sequence", der.encode_sequence, (body[:nlen],), R.enc_seq(body[:nlen]))]
         jobs.append(("remove_integer_bad", lambda s: _expect_der_error(der.remove_integer, s), (b"\x02\x02\x00\x01",), "UnexpectedDER"))
         S.concurrent_purity(ctx, S.codes_of(der), jobs, rng, kw["runs"])
+        S.reentrant_purity(ctx, S.codes_of(der), jobs, rng, max(12, kw["runs"] // 6))
     elif kind == "subid":
         # read_number / encode_number (base-128 sub-identifiers): exhaustive over all inputs of <= 2 bytes and 3-byte inputs
         # with a continuation prefix; round trip for structured values
@@ -381,6 +382,23 @@ def run(ctx, name, kind, **kw):
                 ctx.violation("integer_roundtrip", "remove_integer(encode_integer(%d)) raised %s" % (v, type(e).__name__), dict(v=v))
                 continue
             ctx.check(got[0] == v and bytes(got[1]) == suf, "integer_roundtrip", "round trip of %d gives %r" % (v, got), dict(v=v))
+        # every element type with a body at the 2-, 3- and 4-octet length boundaries (the values above stop at 1100 bits)
+        for nbytes in (255, 256, 65535, 65536, 65537) + ((2 ** 24 - 1, 2 ** 24, 2 ** 24 + 1) if True else ()):
+            body = bytes([0x5A]) + bytes(rng.getrandbits(8) for _ in range(63)) * (nbytes // 63 + 1)
+            body = body[:nbytes]
+            v = int.from_bytes(body, "big")
+            ctx.case("roundtrip.integer_long_body", key="%d" % nbytes)
+            for what, encf, decf, val, refenc in (("integer", der.encode_integer, der.remove_integer, v, R.enc_tlv(0x02, body)),
+                                                  ("octet_string", der.encode_octet_string, der.remove_octet_string, body, R.enc_octet(body)),
+                                                  ("sequence", der.encode_sequence, der.remove_sequence, body, R.enc_seq(body))):
+                try:
+                    enc = encf(val)
+                    got = decf(enc + b"\x05\x00")
+                    ok = bytes(enc) == refenc and (got[0] == val if what == "integer" else bytes(got[0]) == val) and bytes(got[1]) == b"\x05\x00"
+                    why = "encoding differs from reference" if bytes(enc) != refenc else "decoded value / rest differ"
+                except Exception as e:
+                    ok, why = False, "raised %s: %s" % (type(e).__name__, str(e)[:100])
+                ctx.check(ok, what + "_roundtrip_long_body", "%s with a body of %d bytes (a %d-octet length): %s" % (what, nbytes, len(R.enc_len(nbytes)) - 1, why), dict(nbytes=nbytes, what=what))
         lens = list(range(0, 301)) + [2 ** 8, 2 ** 16 - 1, 2 ** 16, 2 ** 16 + 1, 2 ** 24, 2 ** 32 - 1, 2 ** 32, 2 ** 63, 2 ** 64 + 5]
         for n in lens:
             enc = der.encode_length(n)
